@@ -2,6 +2,7 @@
    Only property theorems here. All schedules, all item / worker counts, all user code. *)
 From Flyt Require Import Base Script FlowTable Engine BatchConc EngineCorr EngineFacts
      BatchConcInv BatchConcLive.
+From Flyt Require Import C08Glue.
 
 (* hard bound: in every reachable state, under every schedule, at most `workers` exec calls —
    and at most `workers` tasks — are in flight *)
@@ -9,9 +10,7 @@ Theorem C08_upper :
   forall (o : oracle) c nd (items : list val) stopmode nworkers qcap s0 sched,
     let s := brun o c nd items stopmode qcap (binit items nworkers s0) sched in
     length (parked c s) <= nworkers /\ count_run (ws s) <= nworkers.
-Proof.
-  intros. apply (inflight_bound c items nworkers). apply brun_inv. apply binit_inv.
-Qed.
+Proof. exact C08_upper_glue. Qed.
 Print Assumptions C08_upper.
 
 (* fully usable: in every reachable state in which nothing but user code can move (no step of
@@ -27,12 +26,7 @@ Theorem C08_usable :
       quiescent o c nd items stopmode qcap s -> mpc s <> MRet ->
       forall k w, nth_error (ws s) k = Some w ->
         (exists i a l, w = WRun i (PExec a l)) \/ (w = WIdle /\ deq s = length items).
-Proof.
-  intros o c nd items stopmode nworkers qcap Hw Hq s0 sched s Q Hm.
-  apply (usable_lemma o c nd items stopmode nworkers qcap Hw Hq); auto.
-  - apply brun_inv. apply binit_inv.
-  - apply brun_exit. apply binit_exit.
-Qed.
+Proof. exact C08_usable_glue. Qed.
 Print Assumptions C08_usable.
 
 (* and the pool itself never deadlocks: while the submitter has not returned some thread of
@@ -43,15 +37,10 @@ Theorem C08_no_deadlock :
     forall s0 sched,
       let s := brun o c nd items stopmode qcap (binit items nworkers s0) sched in
       mpc s <> MRet -> exists t, t <> TCancel /\ bstep o c nd items stopmode qcap s t <> None.
-Proof.
-  intros o c nd items stopmode nworkers qcap Hw Hq s0 sched s Hm.
-  apply (no_deadlock_lemma o c nd items stopmode nworkers qcap Hw Hq); auto.
-  - apply brun_inv. apply binit_inv.
-  - apply brun_exit. apply binit_exit.
-Qed.
+Proof. exact C08_no_deadlock_glue. Qed.
 Print Assumptions C08_no_deadlock.
 
 (* the number of workers: pool sizes <= 0 mean one worker *)
 Theorem C08_workers_clamped : forall conc, Nat.max 1 conc >= 1 /\ (1 <= conc -> Nat.max 1 conc = conc).
-Proof. intros conc. split; [apply Nat.le_max_l|intros H; apply Nat.max_r; exact H]. Qed.
+Proof. exact C08_workers_clamped_glue. Qed.
 Print Assumptions C08_workers_clamped.
